@@ -1,12 +1,15 @@
 """Which obligations decide which property, with which assertions."""
-from . import steps
+from . import steps, sweep, kernels
 
 OPS = ["step.bind", "step.list", "step.allocate", "step.claim", "step.release", "step.open", "step.add",
        "step.close", "step.disconnect"]
 
 
-def all_ops(tier, want, usage=False, skip=()):
-    return [dict(ob=o, params=dict(tier=tier, usage=usage), want=want) for o in OPS if o not in skip]
+def all_ops(tier, want, usage=False, skip=(), sweep_too=True):
+    out = [dict(ob=o, params=dict(tier=tier, usage=usage), want=want) for o in OPS if o not in skip]
+    if sweep_too:
+        out.append(dict(ob="sweep.step", params=dict(tier=tier, usage=usage), want=want))
+    return out
 
 
 STEP_BOUNDS = lambda tier: dict(
@@ -78,3 +81,58 @@ PROPS["C17"] = P(
     "an arbitrary protocol state: welcome/ack/error discipline against a reference table written from "
     "docs/server-protocol.md, store unchanged on protocol errors, no exception escapes any handler",
     lambda tier: [dict(ob="step.any", params=dict(tier=tier), want=["C17.", "C09."])] + all_ops(tier, ["C17."]))
+
+
+PROPS["C12"] = P(
+    "the real expire() closure (from the real makeService: real constants, real TimerService period) fired on "
+    "an arbitrary INV pre-state with connections in arbitrary subscription states: every bundle with "
+    "updated > now - CHANNEL_EXPIRATION_TIME or with a subscriber is unchanged (subscribed: updated := now); "
+    "claim/open/add stamp updated := when; operations aimed at one mailbox leave the others untouched; "
+    "E > P and timer period == P read back from the service",
+    lambda tier: [dict(ob="sweep.step", params=dict(tier=tier), want=["C12.", "MEM."])] +
+                 all_ops(tier, ["C12."], skip=("step.bind", "step.list", "step.disconnect", "step.release", "step.allocate"),
+                         sweep_too=False))
+
+PROPS["C13"] = P(
+    "expire() deletes every bundle with no subscriber and updated <= now - E completely, in every app, logs "
+    "no internal error; with no connections and everything old all five tables are empty; a transient "
+    "OperationalError on the first store access escapes nothing and the next sweep completes the job; no "
+    "operation leaves a message without its mailbox (INV.msg_mailbox) or a stale handle (MEM.M4)",
+    lambda tier: [dict(ob="sweep.step", params=dict(tier=tier), want=["C13.", "INV.", "MEM."]),
+                  dict(ob="sweep.step", params=dict(tier=tier, usage="plain"), want=["C13."]),
+                  dict(ob="sweep.fault", params=dict(tier=tier, k=0), want=["C13."])] +
+                 ([dict(ob="sweep.fault", params=dict(tier=tier, k=k), want=["C13."]) for k in range(1, 12)]
+                  if tier == "thorough" else []) +
+                 all_ops(tier, ["INV.msg_mailbox", "MEM.M4", "MEM.M5"], sweep_too=False))
+
+
+def usage_ops(tier, mode, want):
+    return [dict(ob="step.release", params=dict(tier=tier, usage=mode), want=want),
+            dict(ob="step.close", params=dict(tier=tier, usage=mode, crowd=0 if tier == "quick" else 1), want=want),
+            dict(ob="step.bind", params=dict(tier=tier, usage=mode), want=want),
+            dict(ob="sweep.step", params=dict(tier=tier, usage=mode, others=["none", "sub0s0"]), want=want)]
+
+
+PROPS["C15"] = P(
+    "with a usage store: the new usage rows of release / close / sweep correspond one-to-one to the "
+    "nameplates and mailboxes deleted by that operation (same app, fields = reference formulas over the "
+    "deleted object's side rows); no other operation writes a record; the real _summarize_* functions "
+    "agree with the documented precedence for 1..3 (thorough: 4) side rows, any moods, pruned or not; the "
+    "`current` row written by expire() counts the listening connections",
+    lambda tier: usage_ops(tier, "plain", ["C15."]) +
+                 [dict(ob=o, params=dict(tier=tier, usage="plain"), want=["C15."])
+                  for o in ("step.open", "step.add", "step.claim", "step.list", "step.disconnect")] +
+                 [dict(ob="kernel.summarize_mailbox", params=dict(n=n), want=["C15."])
+                  for n in ((1, 2, 3, 4) if tier == "thorough" else (1, 2, 3))] +
+                 [dict(ob="kernel.summarize_nameplate", params=dict(n=n), want=["C15."]) for n in (1, 2, 3, 4)])
+
+PROPS["C16"] = P(
+    "symbolic blur interval B in [1, 86400]: every start / connect time written by release, close, sweep and "
+    "bind is exactly the code's expression B*(t//B) applied to the true arrival time t (symbolic*symbolic "
+    "arithmetic abstracted by uninterpreted functions, so these queries stay linear), and the kernel "
+    "obligations decide with exact integer/real semantics that this expression is a multiple of B with "
+    "v <= t < v+B at each of the three sites that apply it",
+    lambda tier: usage_ops(tier, "blur", ["C16."]) +
+                 [dict(ob="kernel.blur", params=dict(site=s_), want=["C16."]) for s_ in ("nameplate", "mailbox", "bind")] +
+                 [dict(ob="kernel.summarize_mailbox", params=dict(n=2, blur="sym"), want=["C16."]),
+                  dict(ob="kernel.summarize_nameplate", params=dict(n=2, blur="sym"), want=["C16."])])
